@@ -208,12 +208,31 @@ fn explore<T: SpecT>(ctx: &mut Ctx, rs: &RefSpec, depth: usize, reader_side: boo
                     masks.dedup();
                     // an id outside the specification (tolerated): such an element is transparent for every hierarchy decision
                     let raw_id = [0xf2u64, 0xf3, 0xf4, 0xf5, 0xf6, 0xf7, 0xf8, 0xf9, 0xfa, 0xfb].into_iter().find(|i| rs.ty(*i).is_none()).expect("machinery: no free 1-byte id");
-                    for (mask, with_raw) in masks.iter().flat_map(|m| [(*m, false), (*m, true)]) {
+                    // a global Void of 20 bytes in front of the probe, read with a 16-byte initial capacity: the buffer
+                    // grows while the chain is open; where the chain's known-size masters end must not move
+                    let void_ok = rs.ty(ID_VOID) == Some(Ty::B) && rs.allowed(ID_VOID, chain);
+                    for (mask, variant) in masks.iter().flat_map(|m| [(*m, 0u8), (*m, 1), (*m, 2)]) {
+                        let with_raw = variant == 1;
+                        let with_void = variant == 2;
                         if with_raw && mask == 0 && !has_glob {
                             continue;
                         }
+                        if with_void && (!void_ok || mask != 0) {
+                            continue;
+                        }
                         // build from the inside out
-                        let mut body = if with_raw { let mut b = vec![raw_id as u8, 0x81, 0x42]; b.extend(&pb); b } else { pb.clone() };
+                        let mut body = if with_raw {
+                            let mut b = vec![raw_id as u8, 0x81, 0x42];
+                            b.extend(&pb);
+                            b
+                        } else if with_void {
+                            // innermost master = [Void(20)] and nothing else; the probe comes right behind its end
+                            let mut v = vec![0xec, 0x94];
+                            v.extend(std::iter::repeat(0x76u8).take(20));
+                            v
+                        } else {
+                            pb.clone()
+                        };
                         for i in (0..k).rev() {
                             let mut h = id_bytes(chain[i]);
                             if mask >> i & 1 == 1 {
@@ -224,6 +243,9 @@ fn explore<T: SpecT>(ctx: &mut Ctx, rs: &RefSpec, depth: usize, reader_side: boo
                             }
                             h.extend(body);
                             body = h;
+                            if with_void && i == k - 1 {
+                                body.extend(&pb);
+                            }
                         }
                         let stream = body;
                         // simulate the reference closing rule along the chain itself, then for the probe
@@ -241,18 +263,27 @@ fn explore<T: SpecT>(ctx: &mut Ctx, rs: &RefSpec, depth: usize, reader_side: boo
                         if with_raw {
                             want_items.push(NItem::Raw(raw_id, vec![0x42]));
                         }
+                        if with_void {
+                            want_items.push(NItem::Leaf(ID_VOID, crate::refmodel::Val::B(vec![0x76; 20])));
+                            // the innermost master's byte range is exhausted: it ends before the probe is judged
+                            let last = open.pop().expect("machinery: empty chain");
+                            want_items.push(NItem::End(last.0));
+                        }
                         let k_open = open.len();
                         let keep = ref_remaining(rs, &open, probe);
                         let remaining: Vec<u64> = open[..keep].iter().map(|c| c.0).collect();
                         let want_r = rs.allowed(probe, &remaining);
-                        let d = || format!("{} spec {{{}}} reader{}: stream {} = chain [{}] unknown-mask {:b} then {}", label, spec_short(rs), if with_raw { " (unknown ids tolerated, one in front of the probe)" } else { "" }, hex(&stream), chain.iter().map(|i| rs.name(*i)).collect::<Vec<_>>().join("/"), mask, rs.name(probe));
+                        let d = || format!("{} spec {{{}}} reader{}: stream {} = chain [{}] unknown-mask {:b} then {}", label, spec_short(rs), if with_raw { " (unknown ids tolerated, one in front of the probe)" } else if with_void { " (capacity 16; the innermost master holds a 20-byte Void and ends, the probe follows it)" } else { "" }, hex(&stream), chain.iter().map(|i| rs.name(*i)).collect::<Vec<_>>().join("/"), mask, rs.name(probe));
                         if !ctx.enter(&d) {
                             continue;
                         }
                         if has_glob {
                             ctx.nontrivial();
                         }
-                        let obs = parse_slice::<T>(&stream, &if with_raw { Cfg::strict().with_allow(crate::obs::ALLOW_IDS) } else { Cfg::strict() });
+                        let obs = parse_slice::<T>(&stream, &if with_raw { Cfg::strict().with_allow(crate::obs::ALLOW_IDS) } else if with_void { Cfg::strict().with_cap(Some(16)) } else { Cfg::strict() });
+                        if with_void {
+                            ctx.count("reader_probe_after_the_buffer_grew", 1);
+                        }
                         ctx.transitions += obs.items.len() as u64 + 1;
                         if with_raw {
                             ctx.count("reader_probe_behind_a_tolerated_unknown_id", 1);
@@ -298,10 +329,10 @@ fn explore<T: SpecT>(ctx: &mut Ctx, rs: &RefSpec, depth: usize, reader_side: boo
 pub fn run(ctx: &mut Ctx) {
     let depth = ctx.tier.pick(5, 6);
     let max_placeholders = ctx.tier.pick(2, 3);
-    ctx.meta("rule", "cases: (specification, reference-reachable chain of open masters, probe tag, side/variant). Specifications: every forest of <= 4 masters (33 parent vectors) with a leaf under each, placeholder edges (min-max), min in {none,0,1,2}, max in {none,1,2,3}, on master edges (intermediate position for everything below), on a trailing leaf and on <= 2 global leaves, at most the stated number of placeholders per specification, ids of every byte length 1..8, served through a runtime table-driven EbmlSpecification; plus the macro-derived V and W (W has placeholders in trailing and intermediate position). For every chain reachable in the REFERENCE transition relation up to the depth bound, every tag of the specification is probed: writer (chain known-size / unknown-size; probe written plainly, for masters also started with unknown size via both calls, and plainly after a REJECTED End of a master that is not the innermost open one) and strict reader (byte stream = chain headers with none / all / each single / all-but-one unknown-size + probe; and the same streams with an element of an id outside the specification in front of the probe, unknown ids tolerated, which must change no decision). Oracle: accepted iff ref_path_match(path(tag), chain) (root elements iff empty chain); reader: judged against the chain remaining after the closings RefClose prescribes, with the Ends emitted first; rejections are UnexpectedTag / HierarchyError carrying the probe id. Non-trivial: probes whose path contains a placeholder under a non-empty chain.");
+    ctx.meta("rule", "cases: (specification, reference-reachable chain of open masters, probe tag, side/variant). Specifications: every forest of <= 4 masters (33 parent vectors) with a leaf under each, placeholder edges (min-max), min in {none,0,1,2}, max in {none,1,2,3}, on master edges (intermediate position for everything below), on a trailing leaf and on <= 2 global leaves, at most the stated number of placeholders per specification, ids of every byte length 1..8, served through a runtime table-driven EbmlSpecification; plus the macro-derived V and W (W has placeholders in trailing and intermediate position). For every chain reachable in the REFERENCE transition relation up to the depth bound, every tag of the specification is probed: writer (chain known-size / unknown-size; probe written plainly, for masters also started with unknown size via both calls, and plainly after a REJECTED End of a master that is not the innermost open one) and strict reader (byte stream = chain headers with none / all / each single / all-but-one unknown-size + probe; and the same streams with an element of an id outside the specification in front of the probe, unknown ids tolerated, which must change no decision; and, for all-known-size chains, with the innermost master holding just a 20-byte global Void and the probe right behind its end, read with a 16-byte initial capacity: the buffer grows while the chain is open, and the probe must be judged against the chain without that master). Oracle: accepted iff ref_path_match(path(tag), chain) (root elements iff empty chain); reader: judged against the chain remaining after the closings RefClose prescribes, with the Ends emitted first; rejections are UnexpectedTag / HierarchyError carrying the probe id. Non-trivial: probes whose path contains a placeholder under a non-empty chain.");
     ctx.meta("bounds", &format!("chain depth <= {}, <= {} placeholders per specification", depth, max_placeholders));
     ctx.meta("assumptions", "reader-side probes use chains whose outermost master is non-global (before the first non-global element the position in the document is unknown by the statement) || specifications are consistent tables (what the derive macro emits; C18 checks the macro against such tables)");
-    for c in ["writer_probe_allowed", "writer_probe_forbidden", "reader_probe_allowed", "reader_probe_forbidden", "reader_probe_closing_unknown_size_masters", "reader_probe_behind_a_tolerated_unknown_id", "writer_probe_after_a_rejected_end", "specs"] {
+    for c in ["writer_probe_allowed", "writer_probe_forbidden", "reader_probe_allowed", "reader_probe_forbidden", "reader_probe_closing_unknown_size_masters", "reader_probe_behind_a_tolerated_unknown_id", "writer_probe_after_a_rejected_end", "reader_probe_after_the_buffer_grew", "specs"] {
         ctx.expect_nonzero(c);
     }
     // macro-derived specifications
